@@ -71,10 +71,14 @@ def run(ctx):
              '"a b"@x.org', '"a\\"b"@x.org', '"a\\\\"@x.org', '"a"b"@x.org', '""@x.org', '"@x.org', '"a\\"@x.org', '"a\tb"@x.org', '"a\rb"@x.org', '"a\\\r"@x.org',
              "a.b@x.org", ".a@x.org", "a.@x.org", "a..b@x.org", "a@x..org", "a@.x.org", "a@x.org.", "a@-x.org", "a@x-.org", "a@x_y.org", "a@x.o-g", "a b@x.org", "a@x y.org", "a@x.org\r\n", "a\r\n@x.org",
              "é@x.org", "a@éx.example", "a@ex­ample.com", "a@ｅxample．com", "a@x＞y.com", "a@x y.com", "a@x\u0085y.com", "a@x​y.com", "a@xn--e1afmkfd.xn--p1ai", "a@XN--E1AFMKFD.com",
-             "€@x.org", "슀@x.org", "a@€.org", "a<b@x.org", "a>b@x.org", "a@x>.org", "<a@x.org>", "a@@x.org", "@x.org", "a@", "@", "", "a", "a@b@c.d", "\0@x.org", "a@x.org\0", "a@x\x7f.org"]
+             "€@x.org", "슀@x.org", "a@€.org", "a<b@x.org", "a>b@x.org", "a@x>.org", "<a@x.org>", "a@@x.org", "@x.org", "a@", "@", "", "a", "a@b@c.d", "\0@x.org", "a@x.org\0", "a@x\x7f.org",
+             # scoped IPv6 literals (RFC 4007 zone after '%'): not an address an SMTP path can carry - and a place to hide other text
+             "a@[fe80::1%eth0]", "a@fe80::1%eth0", "a@[::1%x>\r\nRCPT TO:<p@e.org]", "a@::1%x>\r\nRCPT TO:<p@e.org", "a@[fe80::1%eth0 ]", "a@[::1%]", "a@::1%", "a@[1.1.1.1%eth0]", "a@[IPv6:fe80::1%eth0]", "a@[::1%25eth0]", "a@[::1% ]",
+             # local parts with non-ASCII characters that are neither letters nor digits, and the 64-octet limit counted in octets
+             "a\u0085b@x.org", "a\u2028@x.org", "a\u00a0b@x.org", "\uff1ca\uff1e@x.org", "a\u3000b@x.org", "\U0001f600@x.org", "\u00e9" * 32 + "@x.org", "\u00e9" * 33 + "@x.org", "a" * 62 + "\u00e9@x.org", "a" * 63 + "\u00e9@x.org", "a\uff20b@x.org"]
     for _ in range(1500 if ctx.tier == "quick" else 40000):
         n = rng.randint(0, 12)
-        extra.append("".join(rng.choice(ALPHA + ["b", "-", "é", "[", "]", ":", "2", "f", "＞", "­"]) for _ in range(n)))
+        extra.append("".join(rng.choice(ALPHA + ["b", "-", "é", "[", "]", ":", "2", "f", "＞", "­", "%", ":", "\u0085"]) for _ in range(n)))
     strs += extra
     impl, model, orc, doms = with_oracles("from_str", strs)
     ctx.count(len(strs) * 2)
@@ -128,7 +132,7 @@ def run(ctx):
     L = lambda n: "a" * n
     pairs += [("a", ".".join([L(63), L(63), L(63), L(61)])), ("a", ".".join([L(63), L(63), L(63), L(60)])), (L(64), ".".join([L(63), L(63), L(63), L(59)])),
               (L(64), ".".join([L(63), L(63), L(63)])), (L(10), ".".join([L(63), L(63), L(63), L(50)]))]
-    pairs += [("u", "[x@y]"), ("a", "x.org"), ('"a@b"', "c.d"), ("a@b", "c.d"), ("a", "b@c.d"), ("a", "[1.2.3.4]"), ("a", "::1"), ("é", "é.example")]
+    pairs += [("u", "[x@y]"), ("a", "x.org"), ('"a@b"', "c.d"), ("a@b", "c.d"), ("a", "b@c.d"), ("a", "[1.2.3.4]"), ("a", "::1"), ("é", "é.example"), ("a", "::1%x"), ("a", "[fe80::1%eth0]"), ("a", "fe80::1%eth0>\r\nX"), ("a\u0085", "x.org"), ("\u00e9" * 33, "x.org")]
     pi, pmod, porc, _ = with_oracles("new", pairs)
     ctx.count(len(pairs) * 2)
     pdiff = [i for i in range(len(pairs)) if pi[i] != pmod[i]]
